@@ -1,5 +1,8 @@
 import Dtn7.Lemmas.Store
 
+set_option linter.unusedSimpArgs false
+set_option linter.unusedSectionVars false
+
 /-!
 C08, completeness of a fragment set: the sweep of `prepareReassembly` over the fragments sorted by
 offset succeeds exactly when the fragments cover the payload.
